@@ -96,6 +96,19 @@ func executeSiblings(t *testing.T, prop string, seed uint64, p *CtxPlan) *core.R
 				<-s.done
 				synctest.Wait()
 			}
+			// one of the silent connections sits on a transport whose SetDeadline
+			// stalls (for an hour): that is this connection's trouble alone
+			stalled := -1
+			release := make(chan struct{})
+			if p.StallOne && silent > 0 {
+				stalled = order[k-1]
+				sibs[stalled].fc.DeadlineHook = func(t time.Time) {
+					if !t.IsZero() {
+						<-release
+					}
+				}
+				res.Probe("sibling_transport_stalls_in_setdeadline")
+			}
 			// the shared context ends
 			var endAt time.Duration
 			if p.EndKind == "timeout" {
@@ -111,7 +124,29 @@ func executeSiblings(t *testing.T, prop string, seed uint64, p *CtxPlan) *core.R
 			synctest.Wait()
 			time.Sleep(time.Hour)
 			synctest.Wait()
+			var stalledRet time.Duration
+			if stalled >= 0 {
+				stalledRet = time.Since(t0)
+				close(release)
+				synctest.Wait()
+			}
 			for i, s := range sibs {
+				if i == stalled {
+					// (returns when its transport lets it)
+					select {
+					case <-s.done:
+						if s.err == nil {
+							res.Fail(prop, "ctx", "NewConn succeeded without a hello", "connection %d", i)
+						} else if s.retAt != stalledRet {
+							res.Fail(prop, "ctx", "blocked NewConn did not fail when its transport's SetDeadline returned", "connection %d of %d: returned at %v, SetDeadline released at %v", i, k, s.retAt, stalledRet)
+						}
+					default:
+						res.Fail(prop, "ctx", "NewConn still waiting after its context ended and its transport's SetDeadline returned", "connection %d of %d", i, k)
+						s.fc.Close()
+						<-s.done
+					}
+					continue
+				}
 				select {
 				case <-s.done:
 				default:
